@@ -17,6 +17,8 @@ import subprocess
 import sys
 import tempfile
 import time
+import threading
+import traceback
 import concurrent.futures as cf
 
 VERIF = os.path.dirname(os.path.dirname(os.path.abspath(__file__)))
@@ -63,6 +65,10 @@ class Check:
         self.selftest = None
         self.exhaustive = False
         self.findings = load_known_findings()
+        self._lock = threading.RLock()
+        self.rule = "(check aborted before completion)"
+        global CURRENT
+        CURRENT = self
 
     # ------------------------------------------------------------------ util
     def cleanup(self):
@@ -115,13 +121,14 @@ class Check:
     def specdir(self, comp):
         """Scratch copy of spec/common + spec/<comp> (TLC litters its directory)."""
         d = os.path.join(self.scratch, "spec-" + comp)
-        if not os.path.isdir(d):
-            os.makedirs(d)
-            for sub in ("common", comp):
-                sd = os.path.join(VERIF, "spec", sub)
-                for f in os.listdir(sd):
-                    if f.endswith(".tla") or f.endswith(".cfg"):
-                        shutil.copy(os.path.join(sd, f), d)
+        with self._lock:
+            if not os.path.isdir(d):
+                os.makedirs(d)
+                for sub in ("common", comp):
+                    sd = os.path.join(VERIF, "spec", sub)
+                    for f in os.listdir(sd):
+                        if f.endswith(".tla") or f.endswith(".cfg"):
+                            shutil.copy(os.path.join(sd, f), d)
         return d
 
     def write_cfg(self, comp, name, spec="Spec", constants=None, invariants=(), properties=(),
@@ -329,6 +336,9 @@ class Check:
         return 0
 
 
+CURRENT = None
+
+
 class Subst:
     """cfg substitution CONST <- Name"""
     def __init__(self, name):
@@ -383,10 +393,18 @@ def main(run):
     """Entry point used by bin/check: run(check) -> exit code; maps exceptions to exit 2."""
     try:
         rc = run()
-    except Broken as e:
-        log("BROKEN: %s" % e)
-        sys.exit(2)
-    except subprocess.TimeoutExpired as e:
-        log("BROKEN: timeout: %s" % e)
+    except BaseException as e:  # noqa: B902
+        if isinstance(e, SystemExit):
+            raise
+        if isinstance(e, Broken):
+            log("BROKEN: %s" % e)
+        elif isinstance(e, subprocess.TimeoutExpired):
+            log("BROKEN: timeout: %s" % e)
+        else:
+            log("BROKEN: unexpected exception in the check machinery:\n" + traceback.format_exc())
+        # a violation of the real code that was already established stays a violation
+        if CURRENT is not None and CURRENT.violations:
+            CURRENT.extra["aborted"] = str(e)[:500]
+            sys.exit(CURRENT.finish(rule=CURRENT.rule))
         sys.exit(2)
     sys.exit(rc)
